@@ -322,8 +322,14 @@ def r3(ctx, dr, ex, outs, msg):
                f"retransmitted and finally fails")
 
     # ---- track_reliable
-    tr = repo.fn("Circuit.track_reliable", BCIRC)
+    from .c05 import follow_delegate, forwarded_field, field_names, table_writers, insertion_sites, resolve_any_call, \
+        is_table, method_params
+    tr_anchor = repo.fn("Circuit.track_reliable", BCIRC)
+    tr = follow_delegate(repo, tr_anchor)
     pid = msg_param(tr)
+    ccls = repo.cls("Circuit", BCIRC)
+    seen_names = field_names(repo, ccls, "seen_reliable")
+    seen_fw = forwarded_field(repo, ccls, "seen_reliable")
 
     def note_absent(st):
         for e, pol in st.env.values():
@@ -415,23 +421,29 @@ def r3(ctx, dr, ex, outs, msg):
     for cpath in sorted(containers or {"self.seen_reliable"}):
         attr = cpath.split(".")[-1]
         nw = 0
-        for f, st in writers_of(repo, attr):
+        ws = table_writers(repo, "seen_reliable") if attr in seen_names else writers_of(repo, attr)
+        in_tr = (lambda f: f == tr or f == tr_anchor)
+        for f, st in ws:
             nw += 1
             kind = st.kind + (f":{st.method}" if st.method else "")
             where = ctx.w(f, st.node)
             key = f"{f.qual}: {kind} on {attr}"
-            if f.qual in ("Circuit.__init__", "Circuit.disconnect"):
+            ctor = f.name == "__init__" and f.cls is not None and \
+                (f.cls.name == "Circuit" or (seen_fw is not None and f.cls.name == seen_fw[0].name) or
+                 (tr.cls is not None and f.cls.name == tr.cls.name))
+            setter = f.cls is not None and f.cls.name == "Circuit" and f.name == "seen_reliable" and f.qual.endswith(".setter")
+            if ctor or setter or f.qual == "Circuit.disconnect":
                 ctx.ob("C19.R3", f"{key} (construction / teardown)", True, where)
-            elif f.qual == "Circuit.track_reliable" and st.kind == "mutcall" and st.method in ("append", "add"):
+            elif in_tr(f) and st.kind == "mutcall" and st.method in ("append", "add"):
                 ctx.ob("C19.R3", f"{key} records the id", True, where)
-            elif st.kind == "mutcall" and st.method in ("discard", "remove") and f.qual == "Circuit.track_reliable":
+            elif st.kind == "mutcall" and st.method in ("discard", "remove") and in_tr(f):
                 a0 = st.node.args[0] if st.node.args else None
                 oldest = isinstance(a0, ast.Subscript) and isinstance(a0.slice, ast.Constant) and a0.slice.value == 0 \
                     or (isinstance(a0, ast.Call) and call_attr(a0) == "popleft")
                 ctx.ob("C19.R3", f"{key} evicts the oldest entry only", bool(oldest), where,
                        f"removes `{norm(a0) if a0 is not None else None}` from the dedupe memory: an id other than the "
                        f"oldest is forgotten and its retransmission is dispatched again")
-            elif st.kind == "mutcall" and st.method == "popleft" and f.qual == "Circuit.track_reliable":
+            elif st.kind == "mutcall" and st.method == "popleft" and in_tr(f):
                 ctx.ob("C19.R3", f"{key} evicts the oldest entry only", True, where)
             else:
                 ctx.ob("C19.R3", f"{key} is an owner operation of the dedupe memory", False, where,
@@ -443,21 +455,31 @@ def r3(ctx, dr, ex, outs, msg):
     send = repo.fn("Circuit.send", BCIRC)
     m = msg_param(sr)
     sm = msg_param(send)
-    ins = [st for st in stores(send.node) if st.path.endswith("unacked_reliable") and st.kind == "setitem"]
+    ins = insertion_sites(repo)
     rets = [r for r in walk(sr.node) if isinstance(r, ast.Return) and r.value is not None]
     ctx.ob("C19.R3", "Circuit.send_reliable returns a completion future", len(rets) >= 1, sr.where)
     for r in rets:
-        v = r.value
+        v, vf, vm = r.value, sr, m
+        # the lookup may be a one-expression method (own / collaborator) that is handed the message
+        if isinstance(v, ast.Call):
+            callee = resolve_any_call(repo, sr, v)
+            if callee is not None:
+                crets = [x for x in walk(callee.node) if isinstance(x, ast.Return) and x.value is not None]
+                params = method_params(callee)
+                cm_ = next((params[i] for i, a_ in enumerate(v.args) if i < len(params) and ap(a_) == m), None)
+                if len(crets) == 1 and cm_ is not None:
+                    v, vf, vm = crets[0].value, callee, cm_
         okf = isinstance(v, ast.Attribute) and v.attr == "completed" and isinstance(v.value, ast.Subscript) \
-            and (ap(v.value.value) or "").endswith("unacked_reliable")
+            and is_table(repo, ap(v.value.value))
         samekey = False
         if okf and ins:
             from .c05 import entry_key
-            k1 = entry_key(repo, sr, v.value.slice)
-            k1 = tuple(x.replace(m + ".", "M.", 1) for x in k1) if k1 else None
-            for st in ins:
-                k2 = entry_key(repo, send, st.target.slice)
-                if k1 is not None and k2 is not None and tuple(x.replace(sm + ".", "M.", 1) for x in k2) == k1:
+            k1 = entry_key(repo, vf, v.value.slice)
+            k1 = tuple(x.replace(vm + ".", "M.", 1) for x in k1) if k1 else None
+            for fn_, st, _via, cm in ins:
+                k2 = entry_key(repo, fn_, st.target.slice)
+                if k1 is not None and k2 is not None and cm is not None and \
+                        tuple(x.replace(cm + ".", "M.", 1) for x in k2) == k1:
                     samekey = True
         ctx.ob("C19.R3", "Circuit.send_reliable returns the `completed` future of the entry send() registered", okf and samekey,
                ctx.w(sr, r), f"returns {norm(v)}")
